@@ -1,113 +1,104 @@
-"""./check selftest -- demonstrates that the specification is bound to the code and not vacuous.
-
- 1. corrupting one recorded field of an accepted trace makes TLC reject it (no event stays `ok`);
- 2. a mutated copy of Algebra.tla (a dropped conjunct) violates its invariant, so the invariants
-    are exercised;
- 3. wrong hints are never believed (a certificate with a changed multiplier does not verify).
-Exit 0 when every demonstration behaves as required, 2 otherwise (it bears no property verdict).
-"""
+"""./check selftest -- the binding demonstrated from the other side: traces recorded from the UNCHANGED library are accepted by the
+trace specifications; the same traces with ONE recorded field corrupted (an answer flipped, an optimum moved by one, an interface
+list swapped, an exception class replaced, a coefficient of a row that came back changed) must be rejected by TLC at exactly the
+corrupted event.  Exit 0 when every corruption is rejected, 1 otherwise.  (The seeded changes under seeded/ demonstrate the same
+binding with the CODE corrupted instead of the trace.)"""
 from __future__ import annotations
 
 import copy
-import os
 import shutil
-import sys
 
 import family
-from tlcrun import run_tlc
-from vcommon import Report, SPEC, run_dir
+from vcommon import Report, run_dir
 
 
-def judge(module, cfg, traces, rd):
-    rep = Report("SELFTEST", "quick")
-    return family.judge_traces(rep, module, cfg, traces, rd)
+def _judge(rep, rd, module, cfg, traces):
+    return family.judge_traces(rep, module, cfg, traces, rd, batch=300)
+
+
+def _family(name, module, cfg, traces, group, pick, corrupt, rep, rd):
+    """pick(ev) -> True for events to corrupt; corrupt(ev) edits a deep copy in place"""
+    base = _judge(rep, rd, module, cfg, traces)
+    targets = []
+    bad = []
+    for t in traces:
+        t2 = copy.deepcopy(t)
+        hit = None
+        for l, ev in enumerate(t2["ev"], 1):
+            if base.get((t["id"], l, group), ("", ""))[0] == "ok" and pick(ev):
+                corrupt(ev)
+                hit = l
+                break
+        if hit:
+            bad.append(t2)
+            targets.append((t["id"], hit))
+    accepted_before = sum(1 for k, v in base.items() if v[0] == "ok")
+    violations_before = sum(1 for k, v in base.items() if v[0] == "violation")
+    after = _judge(rep, rd, module, cfg, bad)
+    rejected = sum(1 for (tid, l) in targets if after[(tid, l, group)][0] in ("violation", "malformed"))
+    print("SELFTEST family=%s events accepted on the unchanged library=%d (violations=%d); corrupted=%d rejected=%d" %
+          (name, accepted_before, violations_before, len(targets), rejected), flush=True)
+    return violations_before == 0 and len(targets) > 0 and rejected == len(targets)
 
 
 def main(tier, replay=None):
-    from props import c01, c04, c13
+    from props import c10, c11, c12, c16
 
+    rep = Report("SELFTEST", "quick")
     rd = run_dir("selftest")
     ok = True
 
-    def req(cond, what):
-        nonlocal ok
-        print(("PASS " if cond else "FAIL ") + what, flush=True)
-        ok = ok and cond
+    cases = [c for c in c11.gen_cases("quick") if c["kind"] == "member"][:60]
+    traces = family.pmap(c11.run_case, cases, chunksize=4)
 
-    # ---- 1a. C04: flip the sign of one coefficient of a certified result row
-    cases = c04.gen_cases("quick")[:40]
-    traces = family.pmap(c04.run_case, cases)
-    v = judge("TraceElim", "TraceElim.cfg", traces, rd)
-    picked = None
-    for t in traces:
-        for l, ev in enumerate(t["ev"], 1):
-            if v[(t["id"], l, "elim")] == ("ok", "certified") and ev["R"] and ev["R"][0]["co"]:
-                picked = (t, l)
-                break
-        if picked:
-            break
-    req(picked is not None, "C04: found a certified elimination to corrupt")
-    if picked:
-        t, l = picked
-        t2 = copy.deepcopy({"id": t["id"], "ev": [t["ev"][l - 1]]})
-        var = sorted(t2["ev"][0]["R"][0]["co"])[0]
-        t2["ev"][0]["R"][0]["co"][var] *= -1
-        v2 = judge("TraceElim", "TraceElim.cfg", [t2], rd)
-        req(v2[(t2["id"], 1, "elim")][0] != "ok", "C04: coefficient sign flipped in the recorded result -> rejected (%s)" % (v2[(t2["id"], 1, "elim")],))
-        t3 = copy.deepcopy({"id": t["id"], "ev": [t["ev"][l - 1]]})
-        for h in t3["ev"][0]["hints"]:
-            if h["kind"] == "cert" and h["lam"]:
-                k = sorted(h["lam"])[0]
-                h["lam"][k] += 1
-        v3 = judge("TraceElim", "TraceElim.cfg", [t3], rd)
-        changed = any(h["kind"] == "cert" and h["lam"] for h in t3["ev"][0]["hints"])
-        req((not changed) or v3[(t3["id"], 1, "elim")][0] != "violation", "C04: a tampered certificate never produces a violation (%s)" % (v3[(t3["id"], 1, "elim")],))
-    # ---- 1b. C01/C06: swap the interface lists of a recorded composition; change an exception class
-    cases = c01.gen_cases("quick")[:40]
-    traces = family.pmap(c01.run_case, cases)
-    v = judge("TraceOps", "TraceOps.cfg", traces, rd)
-    done_itf = done_exc = False
-    for t in traces:
-        for l, ev in enumerate(t["ev"], 1):
-            if not done_itf and ev["exc"] == "none" and v[(t["id"], l, "itf")][0] == "ok" and ev["res"]["inv"] != ev["res"]["outv"]:
-                t2 = copy.deepcopy({"id": t["id"], "ev": [ev]})
-                r = t2["ev"][0]["res"]
-                r["inv"], r["outv"] = r["outv"], r["inv"]
-                v2 = judge("TraceOps", "TraceOps.cfg", [t2], rd)
-                req(v2[(t["id"], 1, "itf")][0] == "violation", "C06: swapped interface lists of a recorded composition -> violation (%s)" % (v2[(t["id"], 1, "itf")],))
-                done_itf = True
-            if not done_exc and ev["exc"] == "IncompatibleArgsError":
-                t2 = copy.deepcopy({"id": t["id"], "ev": [ev]})
-                t2["ev"][0]["exc"] = "KeyError"
-                v2 = judge("TraceOps", "TraceOps.cfg", [t2], rd)
-                req(v2[(t["id"], 1, "itf")][0] == "violation", "C14: exception class changed to KeyError in a recorded call -> violation (%s)" % (v2[(t["id"], 1, "itf")],))
-                done_exc = True
-    req(done_itf and done_exc, "C01 traces offered events to corrupt")
-    # ---- 1c. C13: change one recorded post-snapshot
-    rep = Report("SELFTEST", "quick")
-    hs = c13.gen_histories(rep, rd, 4)
-    traces = [c13.run_case({"id": i + 1, "hist": h["hist"], "focus": h["focus"], "seed": 0}) for i, h in enumerate(hs[:2])]
-    t2 = copy.deepcopy(traces[0])
-    e = next(x for x in t2["ev"] if not x["skipped"])
-    e["post"][0] += 1000
-    v2 = judge("TraceSession", "TraceSession.cfg", [t2], rd)
-    idx = t2["ev"].index(e) + 1
-    req(v2[(t2["id"], idx, "pure")][0] == "violation", "C13: one recorded post-snapshot changed -> violation (%s)" % (v2[(t2["id"], idx, "pure")],))
-    # ---- 2. a mutated Algebra.tla violates its invariant
-    src = open(os.path.join(SPEC, "Algebra.tla")).read()
-    mut = src.replace("asm' = out.x \\cup hp.a", "asm' = out.x")
-    req(mut != src, "Algebra.tla mutation site found")
-    mdir = os.path.join(rd, "mutspec")
-    os.makedirs(mdir, exist_ok=True)
-    with open(os.path.join(mdir, "Algebra.tla"), "w") as f:
-        f.write(mut)
-    shutil.copy(os.path.join(SPEC, "Alg_quick.cfg"), mdir)
-    import subprocess
-    from tlcrun import JARS
+    def flip(ev):
+        ev["ans"] = "false" if ev["ans"] == "true" else "true"
 
-    p = subprocess.run(["java", "-XX:+UseParallelGC", "-Xmx8g", "-cp", JARS, "tlc2.TLC", "-workers", "16", "-metadir", os.path.join(mdir, "meta"),
-                        "-noGenerateSpecTE", "-config", "Alg_quick.cfg", "Algebra.tla"], cwd=mdir, capture_output=True, text=True, timeout=900)
-    req("Invariant Sound is violated" in p.stdout, "Algebra.tla with the producer's assumptions dropped from the composition -> Sound violated")
+    ok &= _family("C11 membership: answer flipped", "TraceLP", "TraceLP.cfg", traces, "member", lambda ev: ev["ans"] in ("true", "false"), flip, rep, rd)
+
+    cases = c12.gen_cases("quick")[:60]
+    traces = family.pmap(c12.run_case, cases, chunksize=4)
+
+    def move(ev):
+        ev["rn"] = ev["rn"] + ev["rd"]
+
+    ok &= _family("C12 optimum: value moved by one", "TraceLP", "TraceLP.cfg", traces, "optimize", lambda ev: ev.get("ans") == "value", move, rep, rd)
+
+    def none_for_value(ev):
+        ev["ans"] = "none"
+
+    ok &= _family("C12 optimum: None reported for a bounded objective", "TraceLP", "TraceLP.cfg", traces, "optimize", lambda ev: ev.get("ans") == "value", none_for_value, rep, rd)
+
+    cases = c16.gen_cases("quick")[:40]
+    traces = family.pmap(c16.run_case, cases, chunksize=2)
+
+    def swap(ev):
+        ev["res"]["inv"], ev["res"]["outv"] = ev["res"]["outv"], ev["res"]["inv"]
+
+    ok &= _family("C16 rename: result interface lists swapped", "TraceOps", "TraceOps.cfg", traces, "itf",
+                  lambda ev: ev["exc"] == "none" and sorted(ev["res"]["inv"]) != sorted(ev["res"]["outv"]), swap, rep, rd)
+
+    def exc(ev):
+        ev["exc"] = "KeyError"
+
+    ok &= _family("C16 rename: exception class replaced", "TraceOps", "TraceOps.cfg", traces, "itf", lambda ev: ev["exc"] == "IncompatibleArgsError", exc, rep, rd)
+
+    cases = c10.gen_cases("quick")[:40] if hasattr(c10, "gen_cases") else []
+    if cases:
+        import tempfile
+
+        tmp = tempfile.mkdtemp(dir=rd)
+        for c in cases:
+            c["dir"] = tmp
+        traces = family.pmap(c10.run_case, cases, chunksize=2)
+
+        def coef(ev):
+            rows = ev["back"]["g"] or ev["back"]["a"]
+            v = sorted(rows[0]["co"])[0]
+            rows[0]["co"][v] += rows[0]["k"]
+
+        ok &= _family("C10 machine dictionary: a coefficient of a row that came back changed", "TraceSerial", "TraceSerial.cfg", traces, "serial",
+                      lambda ev: ev["form"] == "machine-dict" and ev["exc"] == "none" and any(r["co"] for r in (ev["back"]["g"] or ev["back"]["a"])[:1]), coef, rep, rd)
     shutil.rmtree(rd, ignore_errors=True)
-    print("SELFTEST " + ("PASSED" if ok else "FAILED"), flush=True)
-    return 0 if ok else 2
+    print("SELFTEST %s" % ("passed" if ok else "FAILED"), flush=True)
+    return 0 if ok else 1
